@@ -13,6 +13,18 @@ def macro_value(P, name):
     return None
 
 
+def macro_text(P, name):
+    """source rendering of an object-like macro's expansion (as it appears in fact texts)"""
+    for u in P.units.values():
+        for f in u.funcs(only_main=True):
+            for n in f.walk():
+                if n.get("mo") == name and "mi" not in n and cval(n) is not None and n["k"] in ("Binary", "Int", "Cast"):
+                    par = f.par(n)
+                    if par is None or par.get("mo") != name:
+                        return src(n)
+    return None
+
+
 def rec_fields_assigned(f, record, exclude_roots=("src", "old", "olddist", "oimattr", "oimtg", "oimi", "oldi")):
     """fields of `record` assigned anywhere in f through a base that is not one of the source variables; a whole-record
     memcpy/memset into a pointer to that record sets every field"""
